@@ -1,5 +1,6 @@
 import SeaQ.Model.Stmt
 import SeaQ.Model.Template
+import SeaQ.Gen.Spell
 /-!
 Model of the `prepare_*` call tree of `QueryBuilder` (`src/backend/query_builder.rs`) with
 the overrides of the three backends (`src/backend/{mysql,postgres,sqlite}/query.rs`), of
@@ -165,22 +166,9 @@ def leftAssoc (d : Backend) (o : Op) : Bool :=
 
 def S (t : String) : Piece := .s t
 
-def binOpCommon : Nat → Option String
-  | 0 => "AND" | 1 => "OR" | 2 => "LIKE" | 3 => "NOT LIKE" | 4 => "IS" | 5 => "IS NOT" | 6 => "IN"
-  | 7 => "NOT IN" | 8 => "BETWEEN" | 9 => "NOT BETWEEN" | 10 => "=" | 11 => "<>" | 12 => "<" | 13 => ">"
-  | 14 => "<=" | 15 => ">=" | 16 => "+" | 17 => "-" | 18 => "*" | 19 => "/" | 20 => "%" | 21 => "&"
-  | 22 => "|" | 23 => "<<" | 24 => ">>" | 25 => "AS" | 26 => "ESCAPE"
-  | _ => none
-
-def binOpPg : Nat → Option String
-  | 30 => "ILIKE" | 31 => "NOT ILIKE" | 32 => "@@" | 33 => "@>" | 34 => "<@" | 35 => "||" | 36 => "&&"
-  | 37 => "%" | 38 => "<%" | 39 => "<<%" | 40 => "<->" | 41 => "<<->" | 42 => "<<<->" | 43 => "->"
-  | 44 => "->>" | 45 => "~" | 46 => "~*" | 47 => "<->" | 48 => "<#>" | 49 => "<=>"
-  | _ => none
-
-def binOpSqlite : Nat → Option String
-  | 60 => "GLOB" | 61 => "MATCH" | 62 => "->" | 63 => "->>"
-  | _ => none
+/-! the operator and function spellings are regenerated from the renderer's `match` tables on every
+run (`Gen/Spell`, seaq-translate group `spell`) -/
+export SeaQ.Gen.Spell (binOpCommon binOpPg binOpSqlite fnPg)
 
 /-- `prepare_bin_oper` -/
 def rOp (d : Backend) : Op → Pieces
@@ -194,23 +182,12 @@ def rOp (d : Backend) : Op → Pieces
       | .sqlite => (match binOpSqlite i with | some t => [S t] | none => [.bad])
       | .mysql => [.bad]
 
-def fnCommon (d : Backend) : Nat → Option String
-  | 0 => "MAX" | 1 => "MIN" | 2 => "SUM" | 3 => "AVG" | 4 => "ABS" | 5 => "COALESCE" | 6 => "COUNT"
-  | 7 => some (match d with | .postgres => "COALESCE" | _ => "IFNULL")
-  | 8 => some (match d with | .sqlite => "MAX" | _ => "GREATEST")
-  | 9 => some (match d with | .sqlite => "MIN" | _ => "LEAST")
-  | 10 => some (match d with | .sqlite => "LENGTH" | _ => "CHAR_LENGTH")
-  | 11 => "CAST" | 12 => "LOWER" | 13 => "UPPER" | 14 => "BIT_AND" | 15 => "BIT_OR"
-  | 16 => some (match d with | .mysql => "RAND" | _ => "RANDOM")
-  | 17 => "ROUND" | 18 => "MD5"
-  | _ => none
-
-def fnPg : Nat → Option String
-  | 0 => "TO_TSQUERY" | 1 => "TO_TSVECTOR" | 2 => "PHRASETO_TSQUERY" | 3 => "PLAINTO_TSQUERY"
-  | 4 => "WEBSEARCH_TO_TSQUERY" | 5 => "TS_RANK" | 6 => "TS_RANK_CD" | 7 => "STARTS_WITH"
-  | 8 => "GEN_RANDOM_UUID" | 9 => "JSON_BUILD_OBJECT" | 10 => "JSON_AGG" | 11 => "ARRAY_AGG"
-  | 12 => "DATE_TRUNC" | 13 => "ANY" | 14 => "SOME" | 15 => "ALL"
-  | _ => none
+/-- `prepare_function_name_common` with the backend's hooks (`if_null_function`, ..) -/
+def fnCommon (d : Backend) (i : Nat) : Option String :=
+  match d with
+  | .mysql => SeaQ.Gen.Spell.fnMysql i
+  | .postgres => SeaQ.Gen.Spell.fnPostgres i
+  | .sqlite => SeaQ.Gen.Spell.fnSqlite i
 
 /-- `prepare_function_name` -/
 def rFn (d : Backend) : Fn → Pieces
